@@ -172,15 +172,16 @@ class Message(BaseMessage):
 
         This is the reverse of msg.hex().
         """
+        if sep is not None:
+            # We replace the separator with spaces making sure
+            # the string length remains the same so char positions will
+            # be correct in bytearray.fromhex() error messages. (This has
+            # to come first: the separator itself may contain whitespace.)
+            text = text.replace(sep, ' ' * len(sep))
+
         # bytearray.fromhex() is a bit picky about its input
         # so we need to replace all whitespace characters with spaces.
         text = re.sub(r'\s', ' ', text)
-
-        if sep is not None:
-            # We also replace the separator with spaces making sure
-            # the string length remains the same so char positions will
-            # be correct in bytearray.fromhex() error messages.
-            text = text.replace(sep, ' ' * len(sep))
 
         return cl.from_bytes(bytearray.fromhex(text), time=time)
 
